@@ -132,6 +132,7 @@ fn chain(e: &PdfError) -> String {
         PdfError::NoOpArg => "NoOpArg".into(),
         PdfError::Parse { .. } | PdfError::Encoding { .. } => "Parse".into(),
         PdfError::Reference => "Reference".into(),
+        PdfError::NoneError { .. } => "NoneError".into(),
         PdfError::MissingEntry { field, .. } => format!("Missing({})", field),
         PdfError::Try { source, .. } => format!("Try>{}", chain(source)),
         PdfError::Shared { source } => format!("Shared>{}", chain(source)),
